@@ -1,4 +1,5 @@
 import LyModel.Iff.LemmasCompile
+import LyModel.Iff.LemmasOob
 import LyModel.Iff.LemmasReject
 /-!
 # C11 — compilation gives schema constructs their RFC 7950 meaning: if-feature
@@ -120,24 +121,51 @@ example : sample2.den lookup2 (fun _ => true) = true ∧ sample2.den lookup2 (fu
     sample2.den lookup2 (fun k => k == 2) = true ∧ sample2.den lookup2 (fun k => k == 3 || k == 2) = false := by
   simp [sample2, lookup2, Expr.den, Term.den, Factor.den, identA, identB, identC]; decide
 
--- AUDIT: not vacuous, and not subsumed by `iff_compile_correct_partial` on the pinned tree: `not not (not a)` violates
--- `NoNotParenNot` yet compiles (the two miscounts cancel), see the example below.  The last sentence of the docstring is
--- stronger than the statement, though: the theorem says "a wrong result is never RETURNED" (wrong ⇒ `.error _`); that the
--- error is then the out-of-bounds write (and not, say, `.internal` or `.count`) is not stated or proved anywhere.
--- Minimal repair: either weaken the sentence to "… gets a valid expression wrong only by not returning a code", or add
--- `∀ e, e.Resolves lookup → (∃ c, compile {} lookup true e.render = .ok c) ∨ compile {} lookup true e.render = .error .oobWrite`
--- (needs a pass-1 characterisation without the shape hypothesis: j, fSize, fExp exact and exprSize ≤ code length; not
--- attempted here).
+-- AUDIT (resolved): the docstring's last sentence (the only failure on a valid expression is the F13 out-of-bounds write) is now proved for every `fx` as `iff_compile_fails_only_by_oob` below and cited; `iff_compile_sound` itself is unchanged.
 /-- **Soundness without the shape hypothesis.** For EVERY grammatical expression: if the compiler returns at all
-(no crash, no error), the compiled code evaluates to the value of the expression under every assignment. Together
-with `iff_compile_correct_fails` this says the only way `lys_compile_iffeature` gets a valid expression wrong is by the
-out-of-bounds write of F13. -/
+(no crash, no error), the compiled code evaluates to the value of the expression under every assignment. This theorem
+alone says "a wrong code is never RETURNED"; that the only way `lys_compile_iffeature` does not return a code for a
+valid expression is the out-of-bounds write of F13 (and no other error) is `iff_compile_fails_only_by_oob` below, and
+that this does happen on the pinned tree is `iff_compile_correct_fails`. -/
 theorem iff_compile_sound (fx : Fix) (lookup : Bytes → Option Nat) (e : Expr) (hres : e.Resolves lookup) (c : Compiled)
     (h : compile fx lookup true e.render = .ok c) (env : Nat → Bool) : evalIff c env = e.den lookup env := by
   unfold compile at h
   rw [lex2_render] at h
   rw [compileToks_sound fx lookup e hres _ c h]
   exact evalIff_compiled lookup e hres env
+
+/-- **The only failure is the out-of-bounds write.** For EVERY grammatical expression whose features exist, with or
+without the repairs (`fx` arbitrary), no shape hypothesis: `lys_compile_iffeature` either returns a code that evaluates
+to the value of the expression under every assignment, or it does the out-of-bounds write of F13 (`Err.oobWrite`) — no
+syntax error, no "internal error", no other crash is possible on a valid YANG 1.1 expression. (Pass 1 gets the
+parenthesis balance and the feature/operand counts exactly right for every expression and can only UNDER-count the
+records; pass 2 in a record array that is too small fails by the wild store and by nothing else, and an array it got
+through is exactly full.) With fixes/F13.diff the second alternative does not occur (`iff_compile_correct_fixed`). -/
+theorem iff_compile_fails_only_by_oob (fx : Fix) (lookup : Bytes → Option Nat) (e : Expr) (hres : e.Resolves lookup) :
+    (∃ c, compile fx lookup true e.render = .ok c ∧ ∀ env : Nat → Bool, evalIff c env = e.den lookup env) ∨
+    compile fx lookup true e.render = .error .oobWrite := by
+  rw [compile_render]
+  rcases compileToks_ok_or_oob fx lookup e hres with h | h
+  · exact .inl ⟨e.compiled lookup, h, fun env => evalIff_compiled lookup e hres env⟩
+  · exact .inr h
+
+/-- non-vacuity (audit): both alternatives occur on the pinned tree — the F13 witness `not (not a)` takes the second
+(so the disjunction cannot be strengthened to its first half), `sample2` (and/or/not, parentheses, prefixed name) the
+first; the theorem is instantiated at both -/
+example : compile {} (fun _ => some 0) true f13Witness.render = .error .oobWrite ∧
+    ∃ c, compile {} lookup2 true sample2.render = .ok c := ⟨rfl, _, rfl⟩
+example : (∃ c, compile {} (fun _ => some 0) true f13Witness.render = .ok c ∧
+      ∀ env : Nat → Bool, evalIff c env = f13Witness.den (fun _ => some 0) env) ∨
+    compile {} (fun _ => some 0) true f13Witness.render = .error .oobWrite :=
+  iff_compile_fails_only_by_oob {} (fun _ => some 0) f13Witness
+    (by simp [f13Witness, Expr.Resolves, Term.Resolves, Factor.Resolves])
+example : (∃ c, compile {} lookup2 true sample2.render = .ok c ∧
+      ∀ env : Nat → Bool, evalIff c env = sample2.den lookup2 env) ∨
+    compile {} lookup2 true sample2.render = .error .oobWrite :=
+  iff_compile_fails_only_by_oob {} lookup2 sample2
+    (by simp [sample2, lookup2, Expr.Resolves, Term.Resolves, Factor.Resolves, identA, identB, identC]; decide)
+/-- the hypothesis `Resolves` is needed: an unknown feature is reported as such (neither alternative) -/
+example : compile {} (fun _ => none) true f13Witness.render = .error .noFeature := rfl
 
 example : ∃ c, compile {} (fun _ => some 0) true
     (Expr.one (.one (.not sp1 (.not sp1 (.not sp1 (.paren osp0 (.one (.one (.ident identA))) osp0)))))).render = .ok c := by
